@@ -219,7 +219,44 @@ func (p c18) deepPointer(c *core.Ctx) {
 	c.Nontrivial(fmt.Sprint("deeppointer|", full, depth))
 }
 
+// emptySubstitution: a placeholder without a default whose key is absent is replaced by the empty text also on a
+// required property; an expression written to cope with that is evaluated and its result bound.
+func (p c18) emptySubstitution(c *core.Ctx) {
+	name := plainWords[c.Rng.Intn(len(plainWords))]
+	doc := fmt.Sprintf("c18:\n  name: %s\n  empty: {}\n", name)
+	type fld struct {
+		tag  string
+		typ  reflect.Type
+		want any
+	}
+	cands := []fld{
+		{"#{'${c18.region}' == '' ? 'global' : '${c18.region}'}", reflect.TypeOf(""), "global"},
+		{"#{'${c18.region}' == '' ? 'global' : '${c18.region}'},validate=min=2", reflect.TypeOf(""), "global"},
+		{"#{'svc-' + '${c18.name}' + '${c18.suffix}'}", reflect.TypeOf(""), "svc-" + name},
+		{"#{'${c18.zone}' != ''}", reflect.TypeOf(false), false},
+		{"#{'${c18.empty}' == ''}", reflect.TypeOf(false), true},
+		{"#{len('${c18.zone}') + 3}", reflect.TypeOf(0), 3},
+	}
+	f := cands[c.Rng.Intn(len(cands))]
+	full := fmt.Sprintf("value:%q", f.tag)
+	h := world.NewHolder(world.BuildStruct([]world.FieldSpec{{Name: "F", Type: f.typ, Tag: full}}))
+	r := world.Start(&world.Scenario{Config: doc}, world.Options{Extra: []any{h}, NoTracer: true, BinderBudget: 20000})
+	c.Count("starts", 1)
+	c.Count("expressions_over_empty_substitutions", 1)
+	got := reflect.ValueOf(h).Elem().Field(0).Interface()
+	detail := map[string]any{"tag": full, "config": doc, "outcome": core.Short(r.OutcomeDetail(), 300)}
+	if r.Outcome() != "ok" || got != f.want {
+		c.Fail("", fmt.Sprintf("tag %s: outcome %s, the field holds %v, the expression over the substituted text gives %v: %s", full, r.Outcome(), got, f.want, core.Short(r.OutcomeDetail(), 200)), detail)
+		return
+	}
+	c.Nontrivial("emptysubst|" + full)
+}
+
 func (p c18) Run(c *core.Ctx) {
+	if c.Index%24 == 20 {
+		p.emptySubstitution(c)
+		return
+	}
 	if c.Index%24 == 2 {
 		p.negativeDefaults(c)
 		return
